@@ -11,8 +11,16 @@ use log::{debug, warn};
 use nix::errno::Errno;
 use nix::libc::pid_t;
 use nix::sys::signal::{SIGSTOP, Signal};
+#[cfg(feature = "verif")]
+use crate::verif::sys;
+#[cfg(feature = "verif")]
+use crate::verif::sys::wait::{WaitStatus, waitpid};
+#[cfg(feature = "verif")]
+use nix::libc;
+#[cfg(not(feature = "verif"))]
 use nix::sys::wait::{WaitStatus, waitpid};
 use nix::unistd::Pid;
+#[cfg(not(feature = "verif"))]
 use nix::{libc, sys};
 use std::collections::VecDeque;
 
@@ -108,6 +116,18 @@ impl Tracer {
             inject_signal_queue: VecDeque::new(),
             group_stop_guard: false,
         }
+    }
+
+    /// Verification accessor: tracee controller.
+    #[cfg(feature = "verif")]
+    pub fn verif_tracee_ctl(&self) -> &TraceeCtl {
+        &self.tracee_ctl
+    }
+
+    /// Verification accessor: signals waiting for injection.
+    #[cfg(feature = "verif")]
+    pub fn verif_inject_queue(&self) -> Vec<(Pid, Signal)> {
+        self.inject_signal_queue.iter().copied().collect()
     }
 
     /// Continue debugee execution until stop happened.
